@@ -1,6 +1,6 @@
 (** C16 — the live terminal view converges to the true result for any refresh schedule. *)
 From Coq Require Import List ZArith NArith Bool Lia.
-From AG Require Import Str F64 Value Json Expr Ops Pipeline Term Term_proofs Term_scroll_proofs Compile_proofs Rerun_proofs.
+From AG Require Import Str F64 Value Json Expr Ops Pipeline Term Term_proofs Term_scroll_proofs Compile_proofs Rerun_proofs Render_loop Live_proofs.
 From AG Require Generated.
 Import ListNotations.
 Open Scope nat_scope.
@@ -116,3 +116,53 @@ Example C16_scroll_example :
   (scrolled 5 above (frames ++ [last]) = 2) /\
   sc_rows sc = [lit "cccccc"; lit "k  v  "; lit "1  2  "; lit "      "; lit "      "] /\ sc_r sc = 3 /\ sc_c sc = 0.
 Proof. exact scroll_example. Qed.
+
+(** THE RENDER LOOP (src/lib.rs render_aggregate + Renderer::render / should_print, transcribed in Render_loop.v):
+    rows and 50 ms timeouts arrive in any interleaving, a frame is drawn when the output is a terminal and no frame was
+    drawn yet or more than the interval ago, and after the channel is disconnected one final call is made.
+    For EVERY such sequence: the frames drawn are tables of prefixes of what was received, in order, and the run ends
+    with exactly one final print, of ALL rows received ... *)
+Theorem C16_render_loop_shape : forall (A F : Type) (table final : list A -> F) interval tty (evs : list (ev A)),
+  exists frames, run_loop A F table final interval tty evs = frames ++ [(true, final (received A evs))] /\
+                 Forall (prefix_frame A F table (received A evs)) frames.
+Proof. exact run_loop_shape. Qed.
+Print Assumptions C16_render_loop_shape.
+
+(** ... so that, put together with the terminal ([C16_frames_converge]), for any pacing of the input and any number of
+    refreshes the screen ends up showing exactly the final table (frames that fit the screen) *)
+Theorem C16_live_view_converges : forall (A : Type) (table final : list A -> list str) interval h w (evs : list (ev A)),
+  0 < w ->
+  (forall rows, good_frame h w (table rows)) -> (forall rows, good_frame h w (final rows)) ->
+  let out := run_loop A (list str) table final interval true evs in
+  let bytes := onlcr (render_frames [] (map frame_text (map snd out))) in
+  let sc := term_run (blank_screen h w) (lex bytes) in
+  let last := final (received A evs) in
+  screen_text sc = map trim_end last ++ repeat [] (h - length last) /\ sc_r sc = length last /\ sc_c sc = 0.
+Proof. exact live_view_converges. Qed.
+Print Assumptions C16_live_view_converges.
+
+(** not a terminal: the aggregate is printed exactly once, at the end of input, and nothing else is written *)
+Theorem C16_not_a_terminal_prints_once : forall (A F : Type) (table final : list A -> F) interval (evs : list (ev A)),
+  run_loop A F table final interval false evs = [(true, final (received A evs))].
+Proof. exact run_loop_no_tty. Qed.
+Print Assumptions C16_not_a_terminal_prints_once.
+
+(** while input is idle the display catches up within a bounded delay: of two consecutive timeouts more than the
+    refresh interval apart at least one draws a frame, and the last frame then shows every row received so far *)
+Theorem C16_idle_catches_up : forall (A F : Type) (table : list A -> F) interval (evs : list (ev A)) t t',
+  interval < t' - t ->
+  let s0 := fold_left (loop_step A F table interval true) evs (init A F) in
+  (forall l, r_last A F s0 = Some l -> l <= t) ->
+  let s2 := fold_left (loop_step A F table interval true) [Timeout A t; Timeout A t'] s0 in
+  exists pre, r_out A F s2 = pre ++ [(false, table (received A evs))] /\ r_rows A F s2 = received A evs.
+Proof. exact idle_catches_up. Qed.
+Print Assumptions C16_idle_catches_up.
+
+(** the loop on a concrete schedule: two rows, a frame after the first, a timeout too early to draw, one late enough *)
+Example C16_render_loop_example :
+  run_loop nat (list nat) (fun rows => rows) (fun rows => 0 :: rows) 50 true
+           [Recv nat 7 0; Recv nat 8 10; Timeout nat 40; Timeout nat 60] =
+    [(false, [7]); (false, [7; 8]); (true, [0; 7; 8])] /\
+  run_loop nat (list nat) (fun rows => rows) (fun rows => 0 :: rows) 50 false
+           [Recv nat 7 0; Recv nat 8 10; Timeout nat 40; Timeout nat 60] = [(true, [0; 7; 8])].
+Proof. vm_compute. split; reflexivity. Qed.
